@@ -110,6 +110,7 @@ pub fn blank(payments: Vec<PaymentSpec>, htlcs: Vec<HtlcSpec>, seed: u64) -> Sce
         hold: vec![],
         freeze_polls: false,
         initial_pending: vec![],
+        ds_read_faults: vec![],
     }
 }
 
